@@ -237,7 +237,26 @@ def run_history(job):
     return (None, None, hashlib.blake2b(repr(sorted(pubmodel.observed_view(w.at).items())).encode(), digest_size=8).hexdigest())
 
 
+def run_mode_walk(job):
+    """Every sequence of reported modes for AC 0 (the getters are read after init and after every frame):
+    what a getter says may depend on the current report only, never on which modes were seen before."""
+    gen, seq = job
+    w = world(gen)
+    msg = check_view(w, f"at{gen} after init")
+    if msg:
+        return (f"at{gen}:mode-walk:init", msg)
+    for k, mode in enumerate(seq):
+        w.console.state["ac"][0]["mode"] = mode
+        push(w, w.console.ac_status_frame(only=[0]))
+        msg = check_view(w, f"at{gen} mode walk {list(seq[:k + 1])}")
+        if msg:
+            return (f"at{gen}:mode-walk:{mode}", msg)
+    return (None, None)
+
+
 def replay_input(rp):
+    if rp["what"] == "mode-walk":
+        return run_mode_walk((rp["gen"], tuple(rp["seq"])))[1]
     if rp["what"] == "single":
         n, bad = run_single(rp["gen"])
         for sig, msg in bad:
@@ -272,6 +291,12 @@ def run(tier, seed, part=None):
             outcomes.add(snap if isinstance(snap, str) else "violation")
             if sig:
                 chk.violation(sig, msg, {"kind": "input", "module": "pvmc.props.c10", "what": "history", "gen": gen, "seq": list(s)})
+        walks = [(gen, s) for d in range(1, depth + 1) for s in itertools.product(MODES, repeat=d)]
+        for (g, sq), (sig, msg) in zip(walks, explorer.pool().map(run_mode_walk, walks, chunksize=16)):
+            total += len(sq)
+            if sig:
+                chk.violation(sig, msg, {"kind": "input", "module": "pvmc.props.c10", "what": "mode-walk", "gen": gen, "seq": list(sq)})
+        chk.parts.append({"scenario": f"at{gen}/mode-walks", "depth": depth, "modes": MODES, "sequences": len(walks)})
         chk.parts.append({"scenario": f"at{gen}/histories", "depth": depth, "menu": [x[0] for x in m], "sequences": len(seqs)})
         chk.samples.append({"gen": gen, "history": [m[i][0] for i in seqs[len(seqs) // 2]]})
     chk.counters["states"] = len(outcomes)
